@@ -9,6 +9,7 @@ mod live;
 mod c12;
 mod c13;
 mod c14;
+mod elfgen;
 mod tiny_elf;
 mod c15;
 mod c16;
@@ -67,6 +68,7 @@ fn main() {
             let line = match args[2].as_str() {
                 "C16" => c16::one(core, seed_, index),
                 "C15" => c15::one(core),
+                "C14" => c14::one(core, seed_, index),
                 "C09" | "C10" => c09::one(&args[2], core, seed_, index),
                 "C12" | "C06" | "C20" => c12::one(&args[2], core, seed_, index),
                 _ => None,
